@@ -5,6 +5,7 @@ pub fn dispatch(v: &Value) -> Value {
         "bdd_script" => bdd_script(v),
         "adf_sem" => adf_sem(v),
         "iter" => iter_cmd(v),
+        "parse" => parse_cmd(v),
         #[cfg(feature = "server_dto")]
         "graph" => crate::server_cmds::graph_cmd(v),
         #[cfg(feature = "server_dto")]
@@ -14,6 +15,7 @@ pub fn dispatch(v: &Value) -> Value {
         "adf_persist" => adf_persist(v),
         "adf_history" => adf_history(v),
         "mirror" => mirror_cmd(v),
+        "mirror_bounded" => mirror_bounded(v),
         "ng" => ng_cmd(v),
         "bdd_query" => bdd_query(v),
         "counts_kernel" => {
@@ -670,4 +672,60 @@ pub fn sem_text(v: &Value) -> Value {
         }
     };
     json!({"names": names, "result": res.iter().map(|r| classes(r)).collect::<Vec<_>>()})
+}
+
+/// bounded channel between producer and relay, real threads: the consumer starts late and polls until the producer is done
+#[cfg(feature = "frontend")]
+pub fn mirror_bounded(v: &Value) -> Value {
+    let n = us(&v["n"]);
+    let cap = us(&v["cap"]);
+    let (s1, r1) = crossbeam_channel::bounded(cap);
+    let (s2, r2) = crossbeam_channel::unbounded();
+    let mut prod = Bdd::with_sender(s1);
+    let mut relay = Bdd::with_sender_receiver(s2, r1);
+    let mut last = Bdd::with_receiver(r2);
+    let script = v["script"].clone();
+    let worker = std::thread::spawn(move || {
+        let mut handles = Vec::new();
+        for st in script.as_array().unwrap() {
+            script_step(&mut prod, &mut handles, st, n);
+        }
+        dump_nodes(&prod)
+    });
+    std::thread::sleep(std::time::Duration::from_millis(40));
+    let t0 = std::time::Instant::now();
+    while !worker.is_finished() && t0.elapsed().as_secs() < 10 {
+        relay.recv(Term(usize::MAX));
+        std::thread::yield_now();
+    }
+    if !worker.is_finished() {
+        return json!({"timeout": true});
+    }
+    let producer = worker.join().unwrap();
+    relay.recv(Term(usize::MAX));
+    last.recv(Term(usize::MAX));
+    json!({"producer": producer, "polls": [], "final_relay": dump_nodes(&relay), "final_last": dump_nodes(&last)})
+}
+#[cfg(not(feature = "frontend"))]
+pub fn mirror_bounded(_v: &Value) -> Value {
+    json!({"error": "frontend feature off"})
+}
+
+/// the crate's parser on a text: acceptance, statement list, formulas (Debug rendering), formula names
+pub fn parse_cmd(v: &Value) -> Value {
+    let text = v["text"].as_str().unwrap().to_string();
+    let parser = AdfParser::default();
+    let ok = parser.parse()(&text).is_ok();
+    if !ok {
+        return json!({"ok": false});
+    }
+    let names: Vec<String> = parser.var_container().names().read().unwrap().clone();
+    let mut forms = Vec::new();
+    let mut i = 0;
+    while let Some(f) = parser.ac_at(i) {
+        forms.push(format!("{:?}", f));
+        i += 1;
+    }
+    let lookup_ok = names.iter().enumerate().all(|(i, n)| parser.dict_value(n) == Some(i));
+    json!({"ok": true, "names": names, "formulas": forms, "lookup_ok": lookup_ok})
 }
